@@ -4,7 +4,8 @@ package extractfam
 //
 // One rapid campaign per format (sub-tests TestC03/<format>): a generated record set is
 // rendered under two independently drawn layouts; Extract on each rendering must return
-// no error, exactly the expected (name, version) multiset and Locations == [path].
+// no error, exactly the expected (name, version) multiset and Locations == [path] (plus the
+// included requirements file / the go.sum of a go.mod below go 1.17 where documented).
 // TestC03_fixtures validates every renderer against the repository's own fixtures.
 
 import (
